@@ -195,7 +195,7 @@ pub fn drive_xml<S: TreeSink>(
     sink: S,
     cfg: &XmlCfg,
     chunks: &[String],
-    mut at_pause: impl FnMut(&XmlParser<S>),
+    mut at_pause: impl FnMut(&XmlParser<S>, Option<&S::Handle>),
 ) -> (S::Output, bool) {
     let opts = XmlParseOpts {
         tokenizer: XmlTokenizerOpts {
@@ -212,14 +212,17 @@ pub fn drive_xml<S: TreeSink>(
         parser.input_buffer.push_back(StrTendril::from(c.as_str()));
         loop {
             match parser.tokenizer.feed(&parser.input_buffer) {
-                TokenizerResult::Script(_) => continue,
+                TokenizerResult::Script(h) => {
+                    at_pause(&parser, Some(&h));
+                    continue;
+                },
                 _ => break,
             }
         }
         if !parser.input_buffer.is_empty() {
             leftover = true;
         }
-        at_pause(&parser);
+        at_pause(&parser, None);
     }
     let out = parser.finish();
     (out, leftover)
